@@ -280,3 +280,208 @@ def run(cfg, seed, kill, script=None, rmc=False):
         out.n_datagrams = sim.net.ngen
         out.bound = bound
     return out
+
+
+def run_special(cfg, seed, scenario):
+    """Further ways a connection ends (C02 'for any reason'):
+    'local-close:c' / 'local-close:s' — a forceful local close() issued by one task while other tasks of the same application
+        are blocked in recv / recv_unreliable on that connection;
+    'refused:<why>' — a keyed server refuses the client's login (why = wrong-key | expired | garbage), then the same address
+        connects again with a valid ticket.
+    Same result shape as run()."""
+    rng = random.Random(seed)
+    out = ps.Session()
+    out.cfg = out.cfg_s = cfg
+    out.seed, out.ops, out.kill = seed, [], None
+    bound = cfg.ping_timeout + (cfg.resend_limit + 1) * cfg.resend_timeout
+    kind, _, arg = scenario.partition(":")
+    with Sim(seed) as sim:
+        s = cfg.settings()
+        out.settings = out.settings_s = s
+        sim.install_factories(fixed_client_addr=True)
+        sim.net.fate = lambda tx: [0.01]
+        good, session_key = (None, b"")
+        if cfg.credentials:
+            good, session_key = ps.make_credentials(s, random.Random(rng.random()), cfg.key_size)
+        creds = good
+        if kind == "refused":
+            if arg == "wrong-key":
+                creds, session_key = ps.make_credentials(s, random.Random(rng.random()), cfg.key_size, server_key=b"another server's key")
+            elif arg == "expired":
+                real_now = common_now = None
+                from nintendo.nex import common
+                t0 = sim.epoch
+                creds, session_key = ps.make_credentials(s, random.Random(rng.random()), cfg.key_size)
+                # a ticket issued 10 minutes ago
+                import nintendo.nex.kerberos as kerberos
+                tk = kerberos.ServerTicket()
+                tk.timestamp = common.DateTime.fromtimestamp(t0 - 600)
+                tk.source = 1000
+                tk.session_key = session_key
+                creds.ticket.internal = tk.encrypt(b"server key", s)
+            else:
+                creds, session_key = ps.make_credentials(s, random.Random(rng.random()), cfg.key_size)
+                creds.ticket.internal = bytes(rng.randrange(256) for _ in range(len(creds.ticket.internal)))
+        out.creds, out.session_key, out.epoch = creds, session_key, sim.epoch
+        out.rnd, out.accepted, out.send_errors, out.extra_handlers = {}, [], [], []
+        out.got = {("c", 0): [], ("s", 0): []}
+        out.gotu = {"c": [], "s": []}
+        out.connect_error = None
+        out.checkpoints = []
+        out.handler_started = (kind == "refused")     # after a refusal the first handler that starts belongs to the reconnect: plain echo
+        out.errors = []
+        log = sim.net.log
+        stream_ref = {}
+        closed_at = {}
+
+        def op_start(name):
+            out.ops.append([name, sim.now(), None, None]); return len(out.ops) - 1
+        def op_end(i, outcome):
+            out.ops[i][2] = sim.now(); out.ops[i][3] = outcome
+
+        async def reader(side, client):
+            i = op_start("recv@" + side)
+            try:
+                while True:
+                    d = await client.recv(0)
+                    out.got[(side, 0)].append(d)
+                    log.append(("deliver", sim.now(), side, 0, d))
+                    op_end(i, "data")
+                    i = op_start("recv@" + side)
+            except anyio.EndOfStream:
+                log.append(("eof", sim.now(), side, 0))
+                op_end(i, "eof")
+
+        async def ureader(side, client):
+            i = op_start("recv_unreliable@" + side)
+            try:
+                while True:
+                    await client.recv_unreliable()
+            except anyio.EndOfStream:
+                op_end(i, "eof")
+
+        async def send(side, client, data):
+            i = op_start("send@" + side)
+            log.append(("app", sim.now(), side, "send", 0, bytes(data)))
+            try:
+                await client.send(data, 0)
+                out.accepted.append((side, 0, data)); op_end(i, "ok")
+            except anyio.ClosedResourceError:
+                op_end(i, "closed")
+            except Exception as e:
+                op_end(i, "error:" + type(e).__name__)
+
+        async def closer(side, client, delay):
+            await anyio.sleep(quant(delay))
+            i = op_start("close@" + side)
+            closed_at[side] = sim.now()
+            log.append(("app", sim.now(), side, "close", 0, b""))
+            await client.close()
+            op_end(i, "returned")
+
+        async def late_recv(side, client):
+            i = op_start("late-recv@" + side)
+            try:
+                with anyio.fail_after(quant(bound + 5)):
+                    await client.recv(0)
+                op_end(i, "data")
+            except anyio.EndOfStream:
+                op_end(i, "eof")
+            except TimeoutError:
+                op_end(i, "BLOCKED")
+
+        async def handler(client):
+            if out.handler_started:
+                # second connection (after the refusal / the close): a plain echo server
+                try:
+                    while True:
+                        d = await client.recv()
+                        await client.send(b"echo:" + d)
+                except anyio.EndOfStream:
+                    return
+            out.handler_started = True
+            out.server_pid = client.pid()
+            out.rnd["s"] = (client.sequence_mgr.initial_unreliable_id, client.connection_check, client.local_session_id)
+            hi = op_start("handler")
+            async with anyio.create_task_group() as tg:
+                tg.start_soon(ureader, "s", client)
+                if scenario == "local-close:s":
+                    tg.start_soon(closer, "s", client, 0.2617)
+                await reader("s", client)
+            await late_recv("s", client)
+            await send("s", client, b"late")
+            log.append(("app", sim.now(), "s", "done", 0, b""))
+            op_end(hi, "returned")
+
+        async def main():
+            async with prudp.serve_transport(s, SERVER[0], SERVER[1]) as transport:
+                async with transport.serve(handler, 1, 10, b"server key" if cfg.credentials else None):
+                    stream_ref["stream"] = transport.ports.get(1, 10)
+                    ci = op_start("connect")
+                    log.append(("app", sim.now(), "c", "connect", 0, b""))
+                    try:
+                        async with prudp.connect(s, SERVER[0], SERVER[1], credentials=creds) as client:
+                            op_end(ci, "ok")
+                            out.rnd["c"] = (client.sequence_mgr.initial_unreliable_id, client.connection_check, client.local_session_id)
+                            log.append(("app", sim.now(), "c", "connected", 0, b""))
+                            async with anyio.create_task_group() as tg:
+                                tg.start_soon(reader, "c", client)
+                                tg.start_soon(ureader, "c", client)
+                                await send("c", client, b"hello " * 5)
+                                if scenario == "local-close:c":
+                                    await closer("c", client, 0.2617)
+                                # the readers end with EOF once the connection is closed (by us or by the peer)
+                            await late_recv("c", client)
+                            await send("c", client, b"late")
+                            xi = op_start("async-with-exit")
+                        op_end(xi, "returned")
+                        log.append(("app", sim.now(), "c", "closed", 0, b""))
+                    except BaseException as e:
+                        if out.ops[ci][2] is None:
+                            op_end(ci, "failed")
+                            out.connect_error = repr(e)
+                            log.append(("app", sim.now(), "c", "connect-failed", 0, b""))
+                        else:
+                            out.errors.append(("client", repr(e)))
+                    await anyio.sleep(quant(bound + 1.0))
+                    out.server_table = len(stream_ref["stream"].clients)
+                    log.append(("app", sim.now(), "c", "reconnect", 0, b""))
+                    ri = op_start("reconnect")
+                    try:
+                        async with prudp.connect(s, SERVER[0], SERVER[1], credentials=good) as c2:
+                            await c2.send(b"again")
+                            with anyio.fail_after(quant(bound + 5)):
+                                d = await c2.recv()
+                            op_end(ri, "ok" if d == b"echo:again" else "wrong-echo:%r" % d[:20])
+                    except BaseException as e:
+                        op_end(ri, "failed:" + repr(e)[:80])
+
+        async def guarded():
+            with anyio.move_on_after(10 * bound + 60) as scope:
+                await main()
+            out.timed_out = scope.cancelled_caught
+        try:
+            sim.run(guarded()); out.crash = None
+        except Deadlock as e:
+            out.crash = "deadlock: " + str(e); out.timed_out = False
+        except BaseException as e:
+            out.crash = repr(e); out.timed_out = False
+        out.closed_at = closed_at
+        out.dead_at = None
+        out.netlog = log
+        out.end_time = sim.now()
+        out.nsub = 1
+        out.addr = {"s": SERVER}
+        for e in log:
+            if e[0] == "tx" and e[4] == SERVER:
+                out.addr["c"] = e[3]; break
+        vals = [v for (_, _, v) in sim.prudp_rand.log]
+        g = 3 if (cfg.transport == "udp" and cfg.version != 0) else 2
+        groups = [vals[i:i + g] for i in range(0, len(vals), g)]
+        norm = (lambda gr: (gr[0], gr[1], gr[2])) if g == 3 else (lambda gr: (1, gr[0], gr[1]))
+        out.rnd_groups = [norm(gr) for gr in groups if len(gr) == g]
+        if out.rnd_groups: out.rnd.setdefault("c", out.rnd_groups[0])
+        if len(out.rnd_groups) > 1: out.rnd.setdefault("s", out.rnd_groups[1])
+        out.n_datagrams = sim.net.ngen
+        out.bound = bound
+    return out
